@@ -86,6 +86,12 @@ def run(ctx, rep):
                    f'{name} {why}; reconstructed: {exprtree.show(fields.get(name))[:160]}', loc, cfg, sample=True)
         for name, which in (('eval_generator', 'eval'), ('trace_generator', 'trace')):
             ok, why = gen(fields.get(name), which)
+            if not ok and which == 'trace':
+                # equivalent closed form named by the property itself: eval_generator ^ (2^c), exactly
+                tg = fields.get(name)
+                if is_op(tg, POW, 2) and tg[1] == fields.get('eval_generator') and gen(tg[1], 'eval')[0] \
+                        and is_op(tg[2], POW, 2) and tg[2][1] == V(2) and tg[2][2] == ('arg', 2):
+                    ok, why = True, 'ok (eval_generator^(2^c))'
             rep.ob('C12.shape', name, ok,
                    f'{name}: {why}; reconstructed: {exprtree.show(fields.get(name))[:200]}', loc, cfg, sample=True)
         rep.ob('C12.literal', 'FIELD_GENERATOR', g is not None and literals.is_generator(g % P) and g < P,
